@@ -132,8 +132,9 @@ func (p *PackageInfo) validate() error {
 }
 
 type Import struct {
-	Url     string
-	Package *PackageInfo
+	Url string
+	// Not part of the configuration tree: a version may refer back to the package that lists it
+	Package *PackageInfo `yaml:"-"`
 }
 type Imports []*Import
 
@@ -157,9 +158,10 @@ func (imports *Imports) UnmarshalYAML(value *yaml.Node) error {
 }
 
 type Version struct {
-	Label   string
-	Url     string
-	Package *PackageInfo
+	Label string
+	Url   string
+	// Not part of the configuration tree: a version may refer back to the package that lists it
+	Package *PackageInfo `yaml:"-"`
 }
 
 type Versions []*Version
